@@ -69,12 +69,13 @@ Dir(l) == LineDir[l]
 \*  tpl   templates / .html           px1   proxy /secret/api LIVE       px2   proxy /api DEAD
 \*  md    markdown /                  br    browse /
 \*  tf    tryfiles {path} /pub/a.html ev    expvar /secret/vars          pp    pprof
-\*  hd3   header / -Vary              (deletes the header now and again when the handlers below write)
+\*  hd3   header / { -Vary ; +X-H plus }   (-Name deletes the header now and again when the handlers
+\*                                          below write; +Name appends a value; same pattern as hd1)
 LogScope == [lg1 |-> "/", lg2 |-> "/old"]
 LogTag   == [lg1 |-> "L1", lg2 |-> "L2"]
 RwTarget == [rw1 |-> "/secret/s.html", rw2 |-> "/pub/a"]
 HdrScope == [hd1 |-> "/", hd2 |-> "/secret", hd3 |-> "/"]
-HdrVal   == [hd1 |-> "one", hd2 |-> "two", hd3 |-> ""]
+HdrVal   == [hd1 |-> "one", hd2 |-> "two", hd3 |-> "plus"]
 PxFrom   == [px1 |-> "/secret/api", px2 |-> "/api"]
 PxLive   == [px1 |-> TRUE, px2 |-> FALSE]
 
@@ -145,7 +146,7 @@ Battery == << Req("/", FALSE, FALSE), Req("/old", FALSE, FALSE), Req("/old", TRU
 \* captured by value when its setup function ran]
 
 \* abstract response writer: st = 0 until the status line is written
-W0 == [st |-> 0, body |-> "", ct |-> "", xh |-> "", loc |-> "", auth |-> FALSE, enc |-> FALSE, tpl |-> FALSE,
+W0 == [st |-> 0, body |-> "", ct |-> "", xh |-> << >>, loc |-> "", auth |-> FALSE, enc |-> FALSE, tpl |-> FALSE,
        vary |-> FALSE]
 IO0 == [logs |-> << >>, hits |-> << >>]
 R(ret, err, w, io) == [ret |-> ret, err |-> err, w |-> w, io |-> io]
@@ -181,7 +182,9 @@ FirstMatch(ls, P(_)) ==
 
 \* header/setup.go:headersParse merges lines with the same path pattern into ONE rule, placed
 \* where the pattern appeared first: the rules act in the order of first appearance of their
-\* pattern, lines of one pattern in file order
+\* pattern, lines of one pattern in file order (X-H is a sequence of values: Set replaces it, Add
+\* appends; the operations of one rule must act in the order written - header.go used to range
+\* over a map here, which made "X-H one" + "+X-H plus" answer "one" or "one,plus" at random)
 HdrRules(ls) ==
     LET first(k) == CHOOSE j \in 1..Len(ls) : /\ HdrScope[ls[j]] = HdrScope[ls[k]]
                                                /\ \A i \in 1..(j - 1) : HdrScope[ls[i]] # HdrScope[ls[k]]
@@ -191,7 +194,9 @@ HdrRules(ls) ==
 RECURSIVE FoldHdr(_, _, _, _)
 FoldHdr(ls, k, p, xh) ==
     IF k > Len(ls) THEN xh
-    ELSE FoldHdr(ls, k + 1, p, IF ls[k] # "hd3" /\ Under(p, HdrScope[ls[k]]) THEN HdrVal[ls[k]] ELSE xh)
+    ELSE FoldHdr(ls, k + 1, p, IF ~Under(p, HdrScope[ls[k]]) THEN xh
+                               ELSE IF ls[k] = "hd3" THEN Append(xh, HdrVal[ls[k]])    \* +X-H: Header.Add
+                               ELSE << HdrVal[ls[k]] >>)                               \*  X-H: Header.Set
 
 RECURSIVE Serve(_, _, _, _, _)
 Serve(site, i, r, w, io) ==
@@ -268,12 +273,12 @@ Serve(site, i, r, w, io) ==
            \* templates.go: the handlers below write into a ResponseBuffer with a FRESH header
            \* map; the body is buffered (and executed as a template) when the request path ends
            \* in .html, or has no extension and the inner Content-Type is text/html
-           LET res    == Next(r, [w EXCEPT !.ct = "", !.xh = "", !.loc = "", !.auth = FALSE, !.vary = FALSE], io)
+           LET res    == Next(r, [w EXCEPT !.ct = "", !.xh = << >>, !.loc = "", !.auth = FALSE, !.vary = FALSE], io)
                wrote  == res.w.st # 0
                buf    == Ext(r.p) = ".html" \/ (Ext(r.p) = "" /\ res.w.ct = "text/html")
                \* ResponseBuffer.CopyHeader: what was set below overrides what was set above
                merged == [res.w EXCEPT !.ct = IF res.w.ct # "" THEN res.w.ct ELSE w.ct,
-                                       !.xh = IF res.w.xh # "" THEN res.w.xh ELSE w.xh,
+                                       !.xh = IF res.w.xh # << >> THEN res.w.xh ELSE w.xh,
                                        !.loc = IF res.w.loc # "" THEN res.w.loc ELSE w.loc,
                                        !.auth = res.w.auth \/ w.auth, !.vary = res.w.vary \/ w.vary]
            IN  IF ~wrote THEN R(res.ret, res.err, w, res.io)                 \* headers set below are dropped
@@ -392,7 +397,7 @@ AddLine ==
     /\ \E l \in PoolIds :
          /\ \A k \in 1..Len(block) : block[k] # l
          /\ DirIdx(Dir(l)) >= DirIdx(Dir(block[Len(block)]))
-         /\ (Len(block) - 1 < SampleAbove \/ Sampled(Append(block, l)))
+         /\ IF Len(block) - 1 < SampleAbove THEN TRUE ELSE Sampled(Append(block, l))
          /\ block' = Append(block, l)
     /\ UNCHANGED <<rest, file, pc, pi, tokens, di, cfg, mw, ci, stack>>
 
